@@ -3,6 +3,7 @@ CONSTANTS
   W = 6
   NLines = 2
   VefType = 0
+  Kinds = {"const", "halves", "noise", "same", "poke", "stripes"}
   PalSet = {0}
   Vals = {1, 7}
   Strategies = {"literal", "runs", "split-runs", "mixed", "overshoot"}
